@@ -303,9 +303,9 @@ func runC14(c *Case) error {
 	qi := in.Q
 	m0 := in.Setup[0]
 	qi.Local = MRef{Kind: "inline", M: &m0}
-	rs := httpDo(e, "POST", "/basic/v1/compute", qs.json())
-	rs2 := httpDo(e, "POST", "/basic/v1/compute", qs.json()) // repeated computes
-	ri := httpDo(e, "POST", "/basic/v1/compute", qi.json())
+	rs := httpDoFuel(e, "POST", "/basic/v1/compute", qs.json(), "application/json", 1500)
+	rs2 := httpDoFuel(e, "POST", "/basic/v1/compute", qs.json(), "application/json", 1500) // repeated computes
+	ri := httpDoFuel(e, "POST", "/basic/v1/compute", qi.json(), "application/json", 1500)
 	after := getAll(e, len(in.Setup))
 	s1, _ := coqScores(rs, false)
 	s1b, _ := coqScores(rs2, false)
